@@ -40,12 +40,23 @@ class Prop(BaseProp):
         nrand = 5000 if self.tier == "quick" else 60000
         if idx < nrand:
             b = Builder(rng, p_doc=0.5, max_depth=3, p_clone=0.08, clone_toggle_doc=True, helpers_in_tests=0.2, p_doc_impl=0.12, class_arg_variants=True, p_end_doc=0.08)
+            if idx % 60 == 5:
+                b.max_params = rng.choice([30, 80])        # scale: very long signatures
             if idx % 200 == 11:
                 # scale: several hundred top-level commands in one file (and, in blocks, commands nested tens of levels deep)
                 mod = b.module()
                 mod.items = b.items(0, n=rng.randint(300, 700))
                 return mod, b, "large"
             mod = b.module()
+            if idx % 25 == 3:
+                # scale: deep nesting, many groups in one command, a very long physical line
+                shape = rng.choice(["deep-definitions", "deep-sections", "many-groups", "long-line"])
+                extra = {"deep-definitions": lambda: b.deep_definitions(rng.choice([17, 33, 45])),
+                         "deep-sections": lambda: b.deep_sections(rng.choice([17, 24, 40])),
+                         "many-groups": lambda: b.many_groups(rng.choice([101, 150, 400])),
+                         "long-line": lambda: b.long_line_value(rng.choice([8200, 9500, 70000]))}[shape]()
+                mod.items.insert(rng.randint(0, len(mod.items)), extra)
+                return mod, b, "scale:" + shape
             res_clones = b.clones
             return mod, b, "random"
         # exhaustive ordered pairs of kinds, top-level / in a function body, two doc polarities; then ordered triples
